@@ -323,6 +323,13 @@ def r15_3(ctx: Ctx, rep: Report) -> None:
                 if not (isinstance(t, ast.Call) and isinstance(t.func, ast.Name) and t.func.id in ("hasattr", "isinstance")):
                     prior_field = t
             if first_seq is None:
+                # a path that orders the two entries by some attribute without having looked at the sequence numbers
+                r0 = deep_resolve(p.ret, p.env) if p.ret is not None else None
+                if isinstance(r0, ast.Compare) and len(r0.ops) == 1 and isinstance(r0.ops[0], (ast.Lt, ast.LtE, ast.Gt, ast.GtE)) and mentions(r0, "self") and mentions(r0, other):
+                    cl0, cr0 = chain(r0.left), chain(r0.comparators[0])
+                    if not (cl0 and cr0 and cl0[-1].lstrip("_") == cr0[-1].lstrip("_") == "sequence"):
+                        bad = (f"`return {snippet(r0)}` on a path that never compared the sequence numbers", p)
+                        break
                 continue
             seen_seq_test = True
             if prior_field is not None:
@@ -342,6 +349,77 @@ def r15_3(ctx: Ctx, rep: Report) -> None:
             rep.ok(f"{f.qualname}", "differing sequence numbers decide first: self.sequence < other.sequence", where=where(f))
     rep.floor(4, "__lt__ of Ace, Remark, AceGroup, Acl")
     r03_3(ctx, rep, pairs=SIBLINGS[2:], rid="R15.3")
+
+
+def items_setter_store(ctx: Ctx, rep: Report, rid: str = "R15.8") -> None:
+    """A container's items setter stores the list it built - one element per supplied item, in the supplied order - and
+    does not push the elements through the list-like helper methods of Group afterwards (update/add skip duplicates,
+    delete removes by equality): grouping and re-initialisation go through this setter."""
+    rep.rule(rid)
+    group = ctx.cls("Group")
+    list_api = set(group.methods) - {"__init__"}
+    n = 0
+    for q in ("AceGroup.items.setter", "Acl.items.setter", "AddrGroup.items.setter"):
+        f = ctx.prog.find_func(q)
+        if f is None or len(f.params) < 2:
+            continue
+        n += 1
+        rep.instance()
+        param = f.params[1]
+        stores = [x for x in own_nodes(f.node) if isinstance(x, ast.Assign) and any(isinstance(t, ast.Attribute) and src(t.value) == "self" and t.attr == "_items" for t in x.targets)]
+        calls = [x for x in own_nodes(f.node) if isinstance(x, ast.Call) and isinstance(x.func, ast.Attribute) and src(x.func.value) == "self" and x.func.attr in list_api and f.cls is not None and f.cls.lookup_method(x.func.attr) is group.methods.get(x.func.attr)]
+        if calls:
+            rep.violation(q, snippet(calls[0]), f"the setter fills the container through Group.{calls[0].func.attr}(): entries equal to an earlier one are skipped (or removed), so grouping / copying drops lines", where(f, calls[0]), inp="an ACL block with two identical remark lines; acl.group('== ')")
+            continue
+        if not stores:
+            rep.violation(q, "self._items = ...", "the converted list is never stored", where(f))
+            continue
+        state, why = order_of(ctx, f, stores[-1].value)
+        if state.startswith("ordered:"):
+            rep.ok(f"{q}: {snippet(stores[-1], 50)}", f"the list built from `{param}` in its order ({why}); no list-helper call", where=where(f, stores[-1]))
+        else:
+            rep.violation(q, snippet(stores[-1]), f"the stored list is not the per-item conversion of `{param}` in order: {state} ({why})", where(f, stores[-1]))
+    rep.floor(3, "items setters of the containers")
+
+
+def lt_field_agreement(ctx: Ctx, rep: Report, rid: str = "R15.7") -> None:
+    """In the ordering of ACEs every test that looks at a field of both entries looks at the same field of both
+    (a guard `self._dstport.operator and other.srcport.operator` decides the destination step by the source port)."""
+    from .common import norm_field
+
+    rep.rule(rid)
+    cls = ctx.cls("Ace")
+    funcs = [f for f in cls.all_funcs() if f.name == "__lt__" or f.name.startswith("_lt__")]
+    rep.require(bool(funcs), "Ace.__lt__ vanished")
+    n = 0
+    for f in funcs:
+        if len(f.params) < 2:
+            continue
+        other = f.params[1]
+        tests: List[ast.AST] = []
+        for x in own_nodes(f.node):
+            if isinstance(x, (ast.If, ast.IfExp, ast.While)):
+                tests.append(x.test)
+            elif isinstance(x, ast.Return) and isinstance(x.value, (ast.Compare, ast.BoolOp)):
+                tests.append(x.value)
+        for t in tests:
+            sf = {norm_field(cls, c[1]) for c in chains_in_(t) if c[0] == "self" and len(c) >= 3}
+            of = {norm_field(cls, c[1]) for c in chains_in_(t) if c[0] == other and len(c) >= 3}
+            if not sf or not of:
+                continue
+            n += 1
+            rep.instance()
+            if sf == of:
+                rep.ok(f"{f.qualname}: {snippet(t, 60)}", f"both entries' {sorted(sf)}", nontrivial=False, where=where(f, t))
+            else:
+                rep.violation(f.qualname, snippet(t), f"the test reads {sorted(sf)} of this entry but {sorted(of)} of the other: one step of the ordering is decided by another field", where(f, t), inp="two ACEs without source ports that differ in the destination port: eq 1000 sorts before eq 999")
+    rep.floor(4, "tests of Ace.__lt__ that read a field of both entries")
+
+
+def chains_in_(e: ast.AST):
+    from .common import chains_in
+
+    return chains_in(e)
 
 
 def r15_4(ctx: Ctx, rep: Report) -> None:
@@ -501,5 +579,7 @@ def run(ctx: Ctx, rep: Report, tier: str) -> None:
     r15_1(ctx, rep)
     r15_2(ctx, rep)
     r15_3(ctx, rep)
+    lt_field_agreement(ctx, rep)
+    items_setter_store(ctx, rep)
     r15_4(ctx, rep)
     r15_5(ctx, rep)
